@@ -166,6 +166,8 @@ def owner_of(n):
 
 
 def run_task(task):
+    if task.get("kind") == "operators":
+        return run_operator_task(task)
     w = H.world_of(task)
     m = W.build(w, perms=task.get("perms"))
     res = {"violations": [], "counters": {}, "nodes": 0, "arith": 0, "leaves": 0}
@@ -240,12 +242,73 @@ def run_task(task):
     return res
 
 
+def operator_operands():
+    """Small operand alphabet for the operator-level part: every kind the operators distinguish."""
+    from efootprint.abstract_modeling_classes.explainable_objects import (
+        ExplainableQuantity, ExplainableHourlyQuantities, EmptyExplainableObject)
+    from efootprint.builders.time_builders import create_hourly_usage_df_from_list
+    from efootprint.constants.units import u
+    from datetime import datetime
+    d0, d1 = datetime(2025, 1, 1), datetime(2025, 1, 1, 1)
+
+    def h(vals, unit, start):
+        return lambda: ExplainableHourlyQuantities(create_hourly_usage_df_from_list(vals, start, unit), "h")
+    return {
+        "Q:GB": lambda: ExplainableQuantity(2.5 * u.GB, "q1"), "Q:MB": lambda: ExplainableQuantity(300 * u.MB, "q2"),
+        "Q:s": lambda: ExplainableQuantity(4 * u.s, "q3"), "Q:1": lambda: ExplainableQuantity(3 * u.dimensionless, "q4"),
+        "H:GB": h([1.0, 2.0, 4.0], u.GB, d0), "H:MB@+1": h([100.0, 200.0], u.MB, d1), "H:W": h([5.0, 7.0, 11.0], u.W, d0),
+        "E": lambda: EmptyExplainableObject()}
+
+
+def run_operator_task(task):
+    """Every ordered pair of operand kinds x {+,-,*,/} (reflected forms are reached through the other order): when the
+    library returns an explainable result that records the operation, re-evaluating the record must reproduce it."""
+    import operator
+    ops = {"+": operator.add, "-": operator.sub, "*": operator.mul, "/": operator.truediv}
+    res = {"violations": [], "counters": {}, "nodes": 0, "arith": 0, "leaves": 0, "outcome": "ok"}
+    mk = operator_operands()
+    for ka in mk:
+        for kb in mk:
+            for sym, fn in ops.items():
+                a, b = mk[ka](), mk[kb]()
+                try:
+                    r = fn(a, b)
+                except Exception:  # noqa  (refusals are C09's business)
+                    res["counters"]["refused"] = res["counters"].get("refused", 0) + 1
+                    continue
+                if not isinstance(r, S.ExplainableObject):
+                    continue
+                res["nodes"] += 1
+                L, R, op = r.left_parent, r.right_parent, r.operator
+                if op not in ops or L is None or R is None:
+                    continue
+                try:
+                    lf, rf, nf = base_form(L), base_form(R), base_form(r)
+                except Exception:  # noqa
+                    continue
+                ref = evaluate(op, lf, rf)
+                if ref is None:
+                    continue
+                res["arith"] += 1
+                ok, why = agrees(nf, ref, magnitude_scale(lf, rf) if op in ("+", "-") else 0.0)
+                if not ok:
+                    res["violations"].append({
+                        "sig": {"clause": "recorded-operation-does-not-reproduce-value", "op": sym, "where": "operator",
+                                "kinds": ka.split(":")[0] + sym + kb.split(":")[0]},
+                        "detail": {"operands": [ka, kb], "recorded": [S.render(S.canon(L))[:80], op, S.render(S.canon(R))[:80]],
+                                   "result": S.render(S.canon(r))[:120], "why": why}})
+    res["vdigest"] = f"ops:{res['nodes']}:{res['arith']}"
+    return res
+
+
+_run_state_task = None
+
 TIERS = {"quick": {"W1": (25, 4), "W2": (12, 0), "W3": (20, 3), "W4": (6, 0)},
          "thorough": {"W1": (400, 40), "W2": (400, 20), "W3": (400, 30), "W4": (60, 0)}}
 
 
 def make_tasks(tier):
-    tasks = []
+    tasks = [{"kind": "operators", "world": "operators", "history": []}]
     for fam, (n1, n2) in TIERS[tier].items():
         w0 = W.family(fam)
         if fam == "W4":
